@@ -391,10 +391,11 @@ def r4_idempotent_delete(ctx):
                     member_ifs = []
                     for n in ast.walk(h):
                         if isinstance(n, ast.If):
-                            tt = deref(bd.node, n.test)
-                            if isinstance(tt, ast.Compare) and len(tt.ops) == 1 and isinstance(tt.ops[0], ast.In) and isinstance(tt.comparators[0], (ast.Tuple, ast.Set, ast.List)):
-                                codes |= {e.value for e in tt.comparators[0].elts if isinstance(e, ast.Constant)}
-                                member_ifs.append(n)
+                            tt0 = deref(bd.node, n.test)
+                            for tt in [tt0] + (list(tt0.values) if isinstance(tt0, ast.BoolOp) and isinstance(tt0.op, ast.And) else []):
+                                if isinstance(tt, ast.Compare) and len(tt.ops) == 1 and isinstance(tt.ops[0], ast.In) and isinstance(tt.comparators[0], (ast.Tuple, ast.Set, ast.List)):
+                                    codes |= {e.value for e in tt.comparators[0].elts if isinstance(e, ast.Constant)}
+                                    member_ifs.append(n)
                     trues = [x for n in member_ifs for x in cfg.nodes_of(n, 'true')]
                     for hn in cfg.nodes_of(h, 'handler'):
                         # a status error is swallowed (the call completes normally) only through the "code is tolerated" edge
@@ -865,11 +866,18 @@ def r9_b2_bucket_record(ctx):
     corpus = ctx.corpus
     b2 = corpus.cls('b2', 'B2')
     n = 0
-    for m in b2.methods.values():
+    for m in list(b2.methods.values()) + list(b2.module.functions.values()):
         for a in walk_local(m.node):
-            if not (isinstance(a, ast.Assign) and any(isinstance(t, ast.Attribute) and t.attr == '_bucket' and isinstance(t.value, ast.Name) and t.value.id == 'self' for t in a.targets)):
+            # the record: a call with id= / name= keywords, assigned to self._bucket or built by a helper of the module
+            if isinstance(a, ast.Assign) and any(isinstance(t, ast.Attribute) and t.attr == '_bucket' and isinstance(t.value, ast.Name) and t.value.id == 'self' for t in a.targets):
+                v = a.value
+            elif isinstance(a, ast.Return) and m.cls is None:
+                v = a.value
+            else:
                 continue
-            v = a.value
+            if isinstance(v, ast.Name):
+                cands = [x.value for x in walk_local(m.node) if isinstance(x, ast.Assign) and any(isinstance(t, ast.Name) and t.id == v.id for t in x.targets) and isinstance(x.value, ast.Call) and {k.arg for k in x.value.keywords} >= {'id', 'name'}]
+                v = cands[0] if len(cands) == 1 else v
             if not (isinstance(v, ast.Call) and {k.arg for k in v.keywords} >= {'id', 'name'}):
                 continue
             n += 1
